@@ -797,7 +797,7 @@ def run(chk):
         "comparator is memcmp(candidate bytes + offset, current fragment, size) == 0 or a constant under a NULL test of the "
         "comparison configuration; proc->current_frag is set at every query of the fragment hash table and the lookup error "
         "is tested afterwards; in-flight copies are taken before the block is submitted and freed only where the block is "
-        "written. That identical files do share storage, and check_file_range_equal's arithmetic, are not decided. Further rules: K13-truncate (truncation point after a duplicate run is derived from the updated block list), K5-frag-report (a failed read-back is recorded before 'not equal' is answered), K11-everyblock (every completed block reaches the block writer), K13-dedup-args also demands the full summed length.")
+        "written. That identical files do share storage, and check_file_range_equal's arithmetic, are not decided. Further rules: K13-truncate (truncation point after a duplicate run is derived from the updated block list), K5-frag-report (a failed read-back is recorded before 'not equal' is answered), K11-everyblock (every completed block reaches the block writer), K13-dedup-args also demands the full summed length. K10-resume: a read of the byte comparison that follows another continues behind it (never at the bare start of the range); K6 over the block processor: copies into the read-back buffers fit the allocation sites that can be behind the member they go through.")
     chk.assumptions = ["check_file_range_equal and memcmp compare bytes faithfully"]
     prog = load_program("gensquashfs")
     rule_a_tools_enable(chk, prog)
